@@ -58,7 +58,13 @@ class ChunkParser:
                 pass
             else:
                 # Chunk extensions, if any, are ignored
-                self.size = int(line.split(b';', 1)[0].strip(), 16)
+                size = line.split(b';', 1)[0].strip()
+                # chunk-size = 1*HEXDIG, int() also accepts a sign,
+                # underscores or a 0x prefix.  A negative size would
+                # never be satisfied by the data that follows.
+                if not size or size.strip(b'0123456789abcdefABCDEF') != b'':
+                    raise ValueError('Invalid chunk size %r' % size)
+                self.size = int(size, 16)
                 self.state = chunkParserStates.WAITING_FOR_DATA
         elif self.state == chunkParserStates.WAITING_FOR_DATA:
             assert self.size is not None
